@@ -1370,3 +1370,107 @@ s1_object_continue!(s1_object_continue_n2, 2, 5);
 s1_object_continue!(s1_object_continue_n3, 3, 5);
 s1_object_continue!(s1_object_continue_n4, 4, 6);
 
+
+// ---------------------------------------------------------------------------
+// C04, parser half: parse(esc(s)) == s, where esc is the RFC 8785 escaping the
+// printer is shown to emit (C08 string_literal harness: printer and parser are
+// never in the same formula; the two results compose by substitution).
+
+pub const HEXL: [char; 16] = ['0', '1', '2', '3', '4', '5', '6', '7', '8', '9', 'a', 'b', 'c', 'd', 'e', 'f'];
+
+/// Writes the reference escaping of `c` as characters; returns the new length.
+pub fn esc_chars(c: char, buf: &mut [char; 20], mut len: usize) -> usize {
+	let u = c as u32;
+	let short = match u {
+		0x22 => Some('"'),
+		0x5C => Some('\\'),
+		0x08 => Some('b'),
+		0x09 => Some('t'),
+		0x0A => Some('n'),
+		0x0C => Some('f'),
+		0x0D => Some('r'),
+		_ => None,
+	};
+	if let Some(s) = short {
+		buf[len] = '\\';
+		buf[len + 1] = s;
+		len += 2;
+	} else if u < 0x20 {
+		buf[len] = '\\';
+		buf[len + 1] = 'u';
+		buf[len + 2] = '0';
+		buf[len + 3] = '0';
+		buf[len + 4] = HEXL[(u >> 4) as usize];
+		buf[len + 5] = HEXL[(u & 15) as usize];
+		len += 6;
+	} else {
+		buf[len] = c;
+		len += 1;
+	}
+	len
+}
+
+/// class 0: characters printed raw; 1: two-character escapes; 2: \u00xx
+#[cfg(kani)]
+fn char_of_class(class: u8) -> char {
+	let c: char = kani::any();
+	let u = c as u32;
+	let short = matches!(u, 0x22 | 0x5C | 0x08 | 0x09 | 0x0A | 0x0C | 0x0D);
+	match class {
+		0 => kani::assume(u >= 0x20 && !short),
+		1 => kani::assume(short),
+		_ => kani::assume(u < 0x20 && !short),
+	}
+	c
+}
+
+macro_rules! c04_reparse {
+	($name:ident, [$($class:expr),*], $unwind:expr) => {
+		#[cfg(kani)]
+		#[kani::proof]
+		#[kani::unwind($unwind)]
+		#[kani::stub(smallvec::SmallVec::try_grow, crate::verif::util::no_grow)]
+		fn $name() {
+			let mut buf: [char; 20] = ['"'; 20];
+			let mut len = 1;
+			let mut want = Sink::<2>::new();
+			$(
+				let c = char_of_class($class);
+				len = esc_chars(c, &mut buf, len);
+				want.push_char(c);
+			)*
+			buf[len] = '"';
+			len += 1;
+			let a = &buf[..len];
+			let pulled = Cell::new(0);
+			let mut p = parser_at(a, &pulled, 0, 0, any_options());
+			match crate::String::parse_in(&mut p, Context::None) {
+				Ok(Meta(s, _)) => {
+					let b = s.as_bytes();
+					let mut same = b.len() == want.len;
+					macro_rules! byte {
+						($j:expr) => { if $j < b.len() && $j < want.len && b[$j] != want.byte($j) { same = false; } };
+					}
+					byte!(0); byte!(1); byte!(2); byte!(3); byte!(4); byte!(5); byte!(6); byte!(7);
+					assert!(same, "C04:printed-string-reparses-to-itself");
+					assert!(p.position == off(a, 0, len), "C04:printed-string-is-consumed-entirely");
+					core::mem::forget(s);
+				}
+				Err(e) => {
+					core::mem::forget(e);
+					panic!("C04:printed-string-is-valid-json");
+				}
+			}
+			kani::cover!(want.len >= 1);
+			core::mem::forget(p);
+		}
+	};
+}
+
+c04_reparse!(c04_reparse_raw, [0], 3);
+c04_reparse!(c04_reparse_short, [1], 3);
+c04_reparse!(c04_reparse_u00xx, [2], 3);
+c04_reparse!(c04_reparse_raw_short, [0, 1], 4);
+c04_reparse!(c04_reparse_short_u00xx, [1, 2], 4);
+c04_reparse!(c04_reparse_u00xx_raw, [2, 0], 4);
+c04_reparse!(c04_reparse_raw_raw, [0, 0], 4);
